@@ -55,6 +55,7 @@ Fails(c, s) ==
     [] c.kind = "trav"    -> C20TravFails(c)
     [] c.kind = "topsort" -> C20TopFails(c)
     [] c.kind = "cycle"   -> C20CycleFails(c)
+    [] c.kind = "draw"    -> C14DrawFails(c)
     [] c.kind = "same"    -> FailSet(<< <<c.what, c.a = c.b /\ c.exc = "">> >>)
 
 Drift(c, s) == IF c.kind = "hist" THEN HistDrift(c, s)
